@@ -50,4 +50,54 @@ theorem C17_total (t : Str) : parse t = none ∨ ∃ ks, parse t = some ks := by
   | none => exact Or.inl rfl
   | some ks => exact Or.inr ⟨ks, rfl⟩
 
+/-- **C17 (round trip).** Every keyring the tool itself writes parses back to exactly the entries written, in
+    order.  `es` are the (name, encoded public key, locked private key) triples of successive `key generate` runs;
+    each name is what `gen_key` accepts (`read_line().trim()` then `valid_key_name`: non-empty, ≤ 128 bytes, no
+    TAB, no surrounding white space, no line feed; an interior '\r' is allowed); `seps` are the separators written
+    before each section ("" when the file did not exist, "\n" when it did — any mixture is covered). -/
+theorem C17_roundtrip (es : List (Str × Str × Str)) (seps : List Str) (hne : es ≠ [])
+    (hlen : seps.length = es.length) (hsep : ∀ x ∈ seps, x = "".toList ∨ x = "\n".toList)
+    (hv : ∀ e ∈ es, validKeyName e.1 = true ∧ trim e.1 = e.1 ∧ '\n' ∉ e.1 ∧
+      encodedPkOk e.2.1 = true ∧ encodedSkOk e.2.2 = true)
+    (hN : (es.map (·.1)).Nodup) (hP : (es.map (·.2.1)).Nodup) :
+    parse (List.zipWith (fun sep e => sep ++ serializeKey e.1 e.2.1 e.2.2) seps es).flatten =
+      some (es.map fun e => ⟨e.1, e.2.1, some e.2.2⟩) := by
+  have h := parse_written_gen es seps [] {} [] hlen hsep
+    (fun e he => ⟨(hv e he).1, (hv e he).2.1, fun c hc hcn => (hv e he).2.2.1 (hcn ▸ hc), (hv e he).2.2.2.1,
+      (hv e he).2.2.2.2⟩)
+    hN hP (fun k hk => absurd hk (by simp)) (Or.inl rfl) rfl (Or.inl ⟨rfl, rfl⟩) (Or.inl hne)
+  exact h
+
+/-! ### non-vacuity: the two keys of the Rust unit test (`KEYRING_INI`), alice's locked private key reused
+    (`alicePk`, `aliceSk`, `bobPk` and their validity are in KestrelProofs/Keyring.lean) -/
+
+def exampleEntries : List (Str × Str × Str) :=
+  [("alice".toList, alicePk, aliceSk), ("Bobby Bobertson".toList, bobPk, aliceSk)]
+
+/-- a keyring file as `key generate` writes it: first run into a new file, second run into the existing file -/
+def exampleText : Str :=
+  (List.zipWith (fun sep e => sep ++ serializeKey e.1 e.2.1 e.2.2) ["".toList, "\n".toList] exampleEntries).flatten
+
+/-- the hypotheses of `C17_roundtrip` hold of a concrete two-entry keyring -/
+theorem exampleText_parses :
+    parse exampleText = some [⟨"alice".toList, alicePk, some aliceSk⟩, ⟨"Bobby Bobertson".toList, bobPk, some aliceSk⟩] :=
+  C17_roundtrip exampleEntries ["".toList, "\n".toList] (by decide) rfl (by decide)
+    (by
+      intro e he
+      simp only [exampleEntries, List.mem_cons, List.mem_nil_iff, or_false] at he
+      rcases he with rfl | rfl
+      · exact ⟨by decide, by decide, by decide, alicePk_ok, aliceSk_ok⟩
+      · exact ⟨by decide, by decide, by decide, bobPk_ok, aliceSk_ok⟩)
+    (by decide) (by decide)
+
+/-- so `C17_accept` and `C17_lookup_unique` apply to a concrete accepted text -/
+example : (∀ k ∈ [(⟨"alice".toList, alicePk, some aliceSk⟩ : Key), ⟨"Bobby Bobertson".toList, bobPk, some aliceSk⟩],
+      validParsedName k.name = true ∧ encodedPkOk k.pk = true ∧ (∀ sk, k.sk = some sk → encodedSkOk sk = true)) :=
+  (C17_accept exampleText _ exampleText_parses).2.1
+
+example : ∃ ks, parse exampleText = some ks ∧ ∃ k, getKey ks "Bobby Bobertson".toList = some k ∧ k.pk = bobPk :=
+  ⟨_, exampleText_parses, ⟨"Bobby Bobertson".toList, bobPk, some aliceSk⟩, by decide, rfl⟩
+
+example : parse "".toList = none ∧ parse "[Key]\nName = x\n".toList = none ∧ parse "junk".toList = none := by decide
+
 end Kestrel
